@@ -13,15 +13,32 @@ and generation, type erasure, type overwriting and translation of every intermed
 must not raise (counted per stage).  Exception freedom of ~10 kLoC is NOT proved: part (b) is
 supporting exploration, labelled as such; termination of the same-depth loop holds with
 probability 1 only.
+
+The recursion scheme TABLE (coq/IR/Properties_C18_scheme.v): harness/gen2coq.py translates the source of
+generator.py (Python `ast`, fail-closed) into coq/Generated/GenScheme.v on every run: per method the depth
+increment, the call sites of other generators with the offset of self.depth in effect, how only_leaves /
+gen_bottom are bound, and the three branches of get_generators as dispatch sites of generate_expr.  Theorems
+over ANY table passing the decidable `scheme_ok` (ids, summary columns, only listed methods leak, every cycle of
+the (generator, only_leaves) graph passes an increment or a listed edge): the number of generator frames of any
+run is <= scheme_bound * (1 + listed edges used + depth climbed); `generated_scheme_ok` is the obligation on the
+source (vm_compute on the regenerated table), plus the ties to the get_generators model (same increments, every
+offered generator offered in the same branch).  The depth counter itself is NOT bounded by the table (refuted,
+and the cycles that are permitted at every depth are listed in the evidence).  Tie (c): every traced program is
+generated under a Tracer that wraps the table's methods from outside and compares every dynamic call edge, depth
+offset, only_leaves binding, dispatch branch and depth restoration with the table (`scheme-table-differs`), and
+measures the theorem's inequality on every frame (`call-depth`).  A translator failure is `scheme-extract`.
 """
+import os
 import random
 import time
+import tempfile
 import traceback
 
 import common as C
 import tymodel as T
 import ir2coq
 import progs
+import gen2coq
 
 GENS = ["GNew", "GConst", "GArray", "GLogical", "GEquality", "GComparison", "GFieldAccess", "GConditional",
         "GIs", "GFunCall", "GVariable", "GAssignment"]
@@ -326,7 +343,36 @@ def run(tier, seed, replay=None):
     from src import utils
     TR = {"kotlin": KotlinTranslator, "java": JavaTranslator, "groovy": GroovyTranslator, "scala": ScalaTranslator}
     rows = progs.config_table()
-    proof_ok = C.proof_part(rep, "IR/Properties_C18.v", ["IR/Depth.vo", "IR/DepthProofs.vo", "IR/Corr18.vo", "IR/Work.vo", "IR/WorkProofs.vo"], ["IR"])
+    # (s) the recursion scheme of generator.py, translated from its source on every run (fail-closed)
+    scheme, scheme_err = None, None
+    try:
+        scheme = gen2coq.emit_generated()
+    except gen2coq.Unsupported as e:
+        scheme_err = "the translator does not know this shape: %s" % e
+    except (SyntaxError, OSError, KeyError, IndexError, AttributeError, TypeError, ValueError) as e:
+        scheme_err = "the translator failed: %s: %s" % (type(e).__name__, e)
+    proof_ok = C.proof_part(rep, "IR/Properties_C18.v", ["IR/Depth.vo", "IR/DepthProofs.vo", "IR/Corr18.vo", "IR/Work.vo", "IR/WorkProofs.vo"],
+                            ["IR"] + (["Generated"] if scheme is not None else []))
+    scheme_proof_ok, scheme_bound, scheme_parts, cycle_checked = False, None, None, None
+    if scheme is not None:
+        pr2 = C.check_properties_file("IR/Properties_C18_scheme.v", ["IR/Scheme.vo", "Generated/GenScheme.vo", "IR/SchemeProofs.vo"])
+        scheme_proof_ok = C.proof_part_extra(rep, pr2)
+        proof_ok = proof_ok and scheme_proof_ok
+        text3 = (C.CASE_HEADER + "From Coq Require Import List Arith Bool String.\nImport ListNotations.\n"
+                 "From Heph Require Import IR.Depth IR.Scheme Generated.GenScheme.\n"
+                 "Definition L := listed_in gen_table.\n"
+                 "Eval vm_compute in [scheme_bound L gen_table].\n"
+                 "Eval vm_compute in [ids_from 0 gen_table; callees_ok gen_table; sides_ok gen_table; leaks_ok leaky_names gen_table; "
+                 "rank_ok L gen_table (compute_ranks L gen_table); scheme_ok L leaky_names gen_table; "
+                 "cycle_ok gen_table L (fst example_cycle) (snd example_cycle)].\n")
+        rc3, out3 = C.run_case_files([("c18_2", text3)], timeout=600)["c18_2"]
+        if rc3 == 0:
+            vals3 = C.parse_eval_outputs(out3)
+            scheme_bound = C.parse_nat_list(vals3[-2])[0]
+            bools = [x.strip() == "true" for x in vals3[-1].split(" : ")[0].strip()[1:-1].split(";")]
+            scheme_parts = dict(zip(["ids", "callees", "summary_columns", "leaks", "ranks", "scheme_ok"], bools[:6]))
+            cycle_checked = bools[6]
+        C.clean_cases("c18_2")
     rng = random.Random(C.sub_seed(seed, "c18"))
     # (a) direct driving
     cases = drive_get_generators(rng, 1200 if tier == "quick" else 20000)
@@ -412,6 +458,15 @@ def run(tier, seed, replay=None):
     worst = {}
     bound_viol = []
     t0 = time.time()
+    if scheme is not None and not scheme_proof_ok:
+        nper *= 2           # the obligation on the source broke: look harder for a program that shows it
+    tracer = gen2coq.Tracer(scheme, scheme_bound) if scheme is not None else None
+    if tracer is not None:
+        try:
+            tracer.__enter__()
+        except gen2coq.Unsupported as e:
+            scheme_err = str(e)
+            tracer = None
     for lang in T.LANGS:
         for md in (3, 6):
             for s in range(nper):
@@ -420,6 +475,9 @@ def run(tier, seed, replay=None):
                 row[4] = md
                 progs.set_cfg(row)
                 stage = "generate"
+                if tracer is not None:
+                    del tracer.stack[:]
+                    tracer.label = dict(lang=lang, max_depth=md, seed=sd)
                 try:
                     p = progs.generate(lang, sd)
                     nprog += 1
@@ -449,7 +507,70 @@ def run(tier, seed, replay=None):
                     failures.append(dict(lang=lang, max_depth=md, seed=sd, stage=stage, error="%s: %s" % (type(e).__name__, str(e)[:150]),
                                          where=["%s:%d" % (f.name, f.lineno) for f in tb[-4:]]))
     progs.set_cfg(rows[0])
+    if tracer is not None:
+        tracer.__exit__(None, None, None)
     t_tr = time.time() - t0
+    # (c) command-line stream: sessions of the real driver code (hephaestus.gen_program per program, batches of 10 with
+    # reset_word_pool, every option through src/args.py) in separate processes, long enough to exhaust per-process resources
+    import subprocess as _sp
+    import concurrent.futures as _cf
+    import sys as _sys
+    import json as _json
+    if tier == "quick":
+        plan = [("java", 125, ["--max-type-params", "1"]), ("kotlin", 125, ["--max-type-params", "2"]),
+                ("groovy", 60, ["--max-type-params", "1"]), ("scala", 60, ["--max-type-params", "2"]),
+                ("java", 60, ["--max-type-params", "2", "--max-depth", "4"]), ("kotlin", 60, ["--max-type-params", "1", "--max-depth", "3"]),
+                ("groovy", 60, ["--max-type-params", "2", "--disable-use-site-variance"]),
+                ("scala", 60, ["--max-type-params", "1", "--disable-bounded-type-parameters"])]
+    else:
+        plan = [(l, 400, ["--max-type-params", str(m)] + x) for l in T.LANGS for m in (1, 2, 5)
+                for x in ([], ["--max-depth", "3"], ["--disable-parameterized-functions", "--disable-use-site-variance"])]
+    env = dict(os.environ, PYTHONPATH=C.REPO + os.pathsep + os.path.join(C.VERIF, "harness"), PYTHONHASHSEED="0")
+
+    def cli(job):
+        k, (lang, n, flags) = job
+        sd = C.sub_seed(seed, "c18cli", k) % 100000
+        cmd = [_sys.executable, os.path.join(C.VERIF, "harness", "c18_cli.py"), lang, str(n), str(sd)] + flags
+        try:
+            pr = _sp.run(cmd, env=env, stdout=_sp.PIPE, stderr=_sp.STDOUT, text=True, timeout=60 * n + 600, cwd=tempfile.gettempdir())
+        except _sp.TimeoutExpired:
+            return lang, n, flags, sd, None, "did not finish within %d s" % (60 * n + 600)
+        for line in pr.stdout.splitlines():
+            if line.startswith("C18CLI "):
+                return lang, n, flags, sd, _json.loads(line[7:]), None
+        return lang, n, flags, sd, None, "session died: " + pr.stdout[-800:]
+    t1 = time.time()
+    cli_programs, cli_fail, cli_hist = 0, 0, {}
+    with _cf.ThreadPoolExecutor(max_workers=min(8, C.NPROC)) as ex:
+        for lang, n, flags, sd, out_, err_ in ex.map(cli, list(enumerate(plan))):
+            key = "%s %s" % (lang, " ".join(flags))
+            if out_ is None:
+                cli_fail += 1
+                rep.violation("exception-cli", "%s session of %d programs with %s (seed %d): %s" % (lang, n, flags, sd, err_),
+                              dict(lang=lang, programs=n, flags=flags, seed=sd, error=err_, shape="cli-session"))
+                continue
+            cli_programs += out_["programs"]
+            cli_hist[key] = out_["programs"]
+            for f_ in out_["failures"][:2]:
+                cli_fail += 1
+                last = [l_ for l_ in f_["error"].splitlines() if l_.strip()][-1:] or [""]
+                rep.violation("exception-cli", "%s with %s: program %d of the session (seed %d) made the tool fail: %s"
+                              % (lang, " ".join(flags), f_["pid"], sd, last[0][:200]),
+                              dict(lang=lang, flags=flags, session_seed=sd, pid=f_["pid"], error=f_["error"], shape="cli-exception",
+                                   replay="harness/c18_cli.py %s %d %d %s" % (lang, n, sd, " ".join(flags))))
+    t_cli = time.time() - t1
+    if scheme_err is not None:
+        rep.violation("scheme-extract", "harness/gen2coq.py on src/generators/generator.py: %s" % scheme_err,
+                      dict(broken="translation of the recursion scheme", error=scheme_err), no_input=True)
+    if tracer is not None:
+        for d in tracer.diffs[:5]:
+            rep.violation("scheme-table-differs", "the running generator differs from the table translated from its source (%s): %s"
+                          % (d["kind"], {k: v for k, v in d.items() if k != "kind"}),
+                          dict(d, shape="scheme-table-differs", broken="harness/gen2coq.py static table vs instrumented Generator"))
+        for b in tracer.bound_viol[:3]:
+            rep.violation("call-depth", "%s: %d generator frames at self.depth %d (root %d) with %d listed edges; "
+                          "scheme_call_depth_bounded allows %d" % (b["program"], b["frames"], b["depth"], b["depth_root"], b["listed"], b["allowed"]),
+                          dict(b, shape="call-depth"))
     for i in mism:
         rep.violation("correspondence", "get_generators differs from the model on %s" % (cases[i],),
                       dict(case=list(cases[i]), broken="correspondence IR.Depth.get_generators vs Generator.get_generators"),
@@ -465,10 +586,31 @@ def run(tier, seed, replay=None):
                                                                                             f["error"], f["where"]), f)
     if not proof_ok and not rep.violations:
         rep.violation("proof", rep.proof_broken, dict(broken=rep.proof_broken), no_input=True)
+    rep.add(cli_sessions=len(plan), cli_programs=cli_programs, cli_failures=cli_fail, cli_sessions_histogram=cli_hist, cli_s=round(t_cli, 1),
+            cli_rule="sessions of the real driver code in separate processes: options parsed by src/args.py, per program what hephaestus._run "
+                     "does (reset_word_pool per batch of 10, gen_program = generate + transformation schedule + fault injection + translation "
+                     "+ saving), random stream seeded per program; up to 125 programs in one process")
     rep.add(schedule_cases=len(scases), schedule_hangs=len(hangs), erasure_search_cases=len(bcases),
             erasure_search_budget_hit=sum(1 for c in bcases if c[3] == 0 and c[2] == c[0] + 1),
             new_cut_cases=len(gcases), new_cut_beyond_limit=sum(1 for c in gcases if c[1] > 2 * c[2]),
             work_model_mismatches=len(smis) + len(bmis) + len(gmis))
+    if scheme is not None:
+        sm = gen2coq.summary(scheme)
+        cyc = []
+        for c in gen2coq.all_cycles(scheme, limit=200):
+            if c not in cyc:
+                cyc.append(c)
+        rep.add(scheme_table=sm, scheme_bound_frames_per_unit=scheme_bound, scheme_check_parts=scheme_parts,
+                scheme_listed_edges=sorted("%s->%s" % e for e in gen2coq.LISTED),
+                scheme_example_path=scheme.get("example_path"), scheme_example_cycle=scheme.get("example_cycle"),
+                scheme_example_cycle_checked_by_kernel=cycle_checked,
+                scheme_cycles_permitted_at_every_depth=dict(
+                    distinct=len(cyc), shortest=cyc[:12],
+                    note="cycles of the static table through generate_expr that use no full-branch dispatch site, no listed edge and no "
+                         "site cut by depth > 2*max_depth; each raises self.depth every round and nothing in the depth logic cuts it "
+                         "(permitted_cycle_is_unbounded); the table over-approximates the code (types, `expr or ...`), so feasibility "
+                         "of a particular cycle is not decided here"),
+                scheme_dynamic=tracer.report() if tracer is not None else None)
     rep.add(evaluations=len(cases) + nprog + len(scases) + len(bcases) + len(gcases), get_generators_cases=len(cases), distinct_nontrivial=len({tuple(c[:9]) for c in cases}),
             traces_validated_against_impl=len(cases), model_impl_mismatches=len(mism), programs=nprog, stage_failures=stage_fail,
             worst_nesting={"%s/%d" % k: v for k, v in worst.items()}, pipeline_s=round(t_tr, 1),
@@ -481,5 +623,10 @@ def run(tier, seed, replay=None):
                 "exception freedom and termination of the real pipeline are explored per run, not proved; the theorems are about the "
                 "depth logic (get_generators model, abstract recursion scheme)"])
     rep.assumptions = ["the abstract recursion scheme (IR/Depth.v Gen) is hand-written from reading generator.py; it is tied to the code by "
-                       "the measured nesting of generated programs only"]
+                       "the measured nesting of generated programs only",
+                       "the scheme TABLE (Generated/GenScheme.v) is translated from the source of generator.py by harness/gen2coq.py "
+                       "(fail-closed) and compared with the instrumented generator on every traced program; its theorems bound the "
+                       "number of generator frames by the depth counter climbed and the listed edges used (IR/Scheme.v listed_names, "
+                       "hand-written with their justification); the table does not model types, so it does not bound the depth counter "
+                       "itself (scheme_call_depth_bounded_by_max_depth_refuted)"]
     return rep.finish()
